@@ -316,6 +316,97 @@ static int run_persistent(uint64_t seed, int cap, pthread_t *th)
 }
 
 /* ---------- orchestration ---------- */
+/* ---------- lock-free pipeline: a library output is handed to another thread by release/acquire atomics only ----------
+   Producer (objects A: parallel-ECB and CTR) writes X with one large library call and publishes it with a release store
+   (a plain store on x86: no locked instruction, no fence, no system call between the library's return and the store).
+   Consumer acquires, processes the trailer of X with its own object B first, then hashes all of X.  The program is
+   data-race free, so the consumer must see exactly what the sequential execution gives (computed beforehand with the same
+   objects re-keyed).  A library that leaves output bytes in flight when it returns (weakly ordered / non-temporal stores
+   without a fence, deferred writes) is only visible this way: join/mutex hand-overs contain fences. */
+#define PL_ROUNDS 24
+#define PL_MAXN ((size_t)1 << 20)
+static struct { const vh_cipher *c; vh_handle pa, ca, pb; uint8_t *xbase, *src[2], *tw; size_t n[PL_ROUNDS], off[PL_ROUNDS]; int op[PL_ROUNDS];
+                uint64_t got[PL_ROUNDS], want[PL_ROUNDS]; unsigned ready, ack; int rets; } PL;
+static void pl_produce(int i)
+{
+    uint8_t *x = PL.xbase + PL.off[i]; const uint8_t *in = PL.src[i & 1]; int r;
+    switch (PL.op[i]) {
+    case 0: r = PL.c->par_encrypt(x, in, PL.tw, PL.n[i], &PL.pa); break;
+    case 1: r = (PL.c->par_decrypt ? PL.c->par_decrypt : PL.c->par_encrypt)(x, in, PL.tw, PL.n[i], &PL.pa); break;
+    default: r = PL.c->ctr_encrypt(x, in, PL.n[i], &PL.ca); break;
+    }
+    PL.rets += r;
+}
+static uint64_t pl_consume(int i)
+{
+    const uint8_t *x = PL.xbase + PL.off[i]; uint8_t y[256]; uint64_t h; size_t tail = PL.n[i] < 256 ? PL.n[i] : 256;
+    tail -= tail % PL.c->bb;
+    PL.c->par_encrypt(y, x + PL.n[i] - tail, PL.tw, tail, &PL.pb);           /* the trailer first: the last lines written */
+    h = vh_hash(y, tail, VH_HASH_INIT);
+    h = vh_hash(x + PL.n[i] - tail, tail, h);
+    return vh_hash(x, PL.n[i], h);
+}
+static void *pl_stage1(void *p)
+{
+    unsigned i; (void)p;
+    for (i = 1; i <= PL_ROUNDS; ++i) {
+        unsigned long spins = 0;
+        while (__atomic_load_n(&PL.ack, __ATOMIC_ACQUIRE) != i - 1) if ((++spins & 1023) == 0) sched_yield();
+        pl_produce((int)i - 1);
+        __atomic_store_n(&PL.ready, i, __ATOMIC_RELEASE);
+    }
+    return NULL;
+}
+static void *pl_stage2(void *p)
+{
+    unsigned i; (void)p;
+    for (i = 1; i <= PL_ROUNDS; ++i) {
+        unsigned long spins = 0;
+        while (__atomic_load_n(&PL.ready, __ATOMIC_ACQUIRE) != i) if ((++spins & 1023) == 0) sched_yield();
+        PL.got[i - 1] = pl_consume((int)i - 1);
+        __atomic_store_n(&PL.ack, i, __ATOMIC_RELEASE);
+    }
+    return NULL;
+}
+static void pl_key(vh_rng *r0)
+{
+    vh_rng r = *r0; uint8_t key[16], ctr[16];
+    vh_rand_bytes(&r, key, 16); vh_rand_bytes(&r, ctr, 16);
+    PL.c->par_set_key(&PL.pa, key, 16, 7, 1); PL.c->ctr_set_key(&PL.ca, key, 16, 7); PL.c->ctr_set_counter(&PL.ca, ctr, PL.c->bb);
+    vh_rand_bytes(&r, key, 16); PL.c->par_set_key(&PL.pb, key, 16, 6, 1);
+}
+static int run_pipeline(uint64_t rep, int cap, char *detail, size_t dn)
+{
+    vh_rng r, rk; int i, bad = 0; pthread_t t1, t2; size_t k;
+    static const size_t offs[8] = {0, 32, 64, 96, 16, 48, 8, 1};
+    vh_rng_seed(&r, vh_seed, 0x1B, rep);
+    PL.c = &vh_ciphers[rep % CIPH_N];
+    if (!PL.xbase) { PL.xbase = aligned_alloc(4096, PL_MAXN + 4096); PL.src[0] = aligned_alloc(4096, PL_MAXN + 4096); PL.src[1] = aligned_alloc(4096, PL_MAXN + 4096); PL.tw = aligned_alloc(4096, PL_MAXN + 4096); }
+    vh_rand_bytes(&r, PL.src[0], 4096); vh_rand_bytes(&r, PL.src[1], 4096); vh_rand_bytes(&r, PL.tw, 4096);
+    for (k = 4096; k < PL_MAXN; ++k) { PL.src[0][k] = (uint8_t)(PL.src[0][k - 4096] + 3); PL.src[1][k] = (uint8_t)(PL.src[1][k - 4096] + 7); PL.tw[k] = (uint8_t)(PL.tw[k - 4096] + 11); }
+    for (i = 0; i < PL_ROUNDS; ++i) {
+        size_t n = (i % 3 == 0) ? ((size_t)262144 << vh_below(&r, 3)) : 65536 + 32 * (size_t)vh_below(&r, 28000);
+        PL.off[i] = vh_below(&r, 4) ? offs[vh_below(&r, 4)] : offs[vh_below(&r, 8)];
+        if (vh_below(&r, 3) == 0) n -= 32 * (1 + vh_below(&r, 3));             /* buffer ends in the middle of a cache line */
+        if (n + PL.off[i] > PL_MAXN) n = PL_MAXN - 128;
+        PL.n[i] = n; PL.op[i] = (int)vh_below(&r, 3);
+    }
+    memset(&PL.pa, 0, sizeof(PL.pa)); memset(&PL.ca, 0, sizeof(PL.ca)); memset(&PL.pb, 0, sizeof(PL.pb));
+    vh_set_cap(cap);
+    if (!PL.c->par_init(&PL.pa) || !PL.c->ctr_init(&PL.ca) || !PL.c->par_init(&PL.pb)) return -1;
+    rk = r; pl_key(&rk); PL.rets = 0;
+    for (i = 0; i < PL_ROUNDS; ++i) { pl_produce(i); PL.want[i] = pl_consume(i); }      /* sequential execution */
+    { int wr = PL.rets; memset(PL.xbase, 0xA5, PL_MAXN + 4096);
+      rk = r; pl_key(&rk); PL.rets = 0; PL.ready = PL.ack = 0;
+      pthread_create(&t2, NULL, pl_stage2, NULL); pthread_create(&t1, NULL, pl_stage1, NULL);
+      pthread_join(t1, NULL); pthread_join(t2, NULL);
+      if (PL.rets != wr) bad++; }
+    for (i = 0; i < PL_ROUNDS; ++i) if (PL.got[i] != PL.want[i]) { if (!bad) snprintf(detail, dn, "{\"cipher\":\"%s\",\"repetition\":%llu,\"backend_cap\":%d,\"round\":%d,\"op\":%d,\"bytes\":%lu,\"output_offset_mod_4096\":%lu}", PL.c->name, (unsigned long long)rep, cap, i, PL.op[i], (unsigned long)PL.n[i], (unsigned long)PL.off[i]); bad++; }
+    VH_COUNT("pipeline_handovers_release_acquire", PL_ROUNDS); { uint64_t tot = 0; for (i = 0; i < PL_ROUNDS; ++i) tot += PL.n[i]; VH_COUNT("pipeline_bytes_handed_over", tot); }
+    PL.c->par_cleanup(&PL.pa); PL.c->ctr_cleanup(&PL.ca); PL.c->par_cleanup(&PL.pb);
+    return bad;
+}
+
 typedef struct { int tid; uint64_t seed; int workload; int bulk; chist *ch; phist *ph; tscript got, want; vh_rng yr; } targ;
 static targ TA[NT_MAX];
 
@@ -386,6 +477,18 @@ int main(int argc, char **argv)
         VH_COUNT("repetitions_first-concurrent-init", 1);
         VH_MAXC("max_threads_simultaneously_inside_library_calls", in_lib_max);
         *vh_counter_ref("max_threads") = (uint64_t)NT;
+        vh_finish();
+        return 0;
+    }
+    if (!strcmp(vh_arg_mode, "pipeline")) {
+        for (rep = vh_first + vh_shard; rep < vh_first + reps; rep += vh_nshards) {
+            char d[300] = ""; int cap = (int)((rep / CIPH_N) % 3), nb;
+            nb = run_pipeline(rep, cap, d, sizeof(d));
+            if (nb < 0) { printf("{\"type\":\"inconclusive\",\"reason\":\"pipeline objects could not be initialised\"}\n"); return 2; }
+            if (nb) { vh_sh->cur_case = rep; vh_violation("C18:lock-free-pipeline:consumer-result-differs-from-sequential", d, d); }
+            if (vh_distinct(rep * 0x9E3779B97F4A7C15ull + vh_seed)) VH_COUNT("distinct_nontrivial_repetitions", 1);
+            VH_COUNT("repetitions_lock-free-pipeline", 1); VH_COUNT("thread_runs", 2);
+        }
         vh_finish();
         return 0;
     }
